@@ -134,6 +134,13 @@ class Evaluator:
         args = list(args)
         if self_term is not None:
             args = [self_term] + args
+        # dynamic dispatch: a method named through a base class runs the receiver's own override
+        if fi.cls is not None and fi.kind in ('method', 'property') and args and T.tag(args[0]) == 'obj':
+            ci = self.p.classes.get(args[0][1])
+            if ci is not None and fi.cls in ci.mro():
+                m = ci.find_method(fi.name)
+                if m is not None and m is not fi:
+                    fi = m
         return self._invoke(fi, args, dict(kwargs or {}), facts, depth=0)
 
     def construct(self, clsqual, args=(), kwargs=None, facts=None):
@@ -277,6 +284,25 @@ class Evaluator:
             return T.opaque('enum call'), facts
         init = ci.find_method('__init__')
         me = T.obj(ci.qual, {})
+        if init is None and ci.is_record and ci.fields:
+            # typing.NamedTuple / dataclass: the generated constructor takes the annotated fields in order
+            names = [n for n, _ in ci.fields]
+            vals = {}
+            if len(args) > len(names) or any(k not in names for k in kwargs):
+                return T.raise_('TypeError'), facts
+            for n, a in zip(names, args):
+                vals[n] = a
+            for k, a in kwargs.items():
+                if k in vals:
+                    return T.raise_('TypeError'), facts
+                vals[k] = a
+            fr0 = Frame(None, {}, facts, ci.module, ci, depth)
+            for n, d in ci.fields:
+                if n not in vals:
+                    if d is None:
+                        return T.raise_('TypeError'), facts
+                    vals[n] = self.expr(d, fr0)
+            return T.obj(ci.qual, vals), facts
         if init is None:
             return me, facts
         key = init.qual[len(PKG) + 1:]
@@ -514,8 +540,26 @@ class Evaluator:
         elif isinstance(target, ast.Starred):
             self.assign(target.value, T.opaque('starred target'), fr)
 
+    def truth(self, v, fr, _depth=0):
+        """bool(v): an object of a package class that defines __bool__ or __len__ is as true as those say."""
+        k = T.tag(v)
+        if k == 'phi' and _depth < 12:
+            return T.truth(T.phi(v[1], self.truth(v[2], fr, _depth + 1), self.truth(v[3], fr, _depth + 1)))
+        if k == 'obj':
+            ci = self.p.classes.get(v[1])
+            if ci is not None:
+                m = ci.find_method('__bool__')
+                if m is not None:
+                    r, f2 = self._invoke(m, [v], {}, fr.facts, fr.depth + 1)
+                    return T.truth(r)
+                m = ci.find_method('__len__')
+                if m is not None:
+                    r, f2 = self._invoke(m, [v], {}, fr.facts, fr.depth + 1)
+                    return T.not_(T.eq(T.const(0), r))
+        return T.truth(v)
+
     def st_If(self, st, fr):
-        c = self.decide(T.truth(self.expr(st.test, fr)), fr)
+        c = self.decide(self.truth(self.expr(st.test, fr), fr), fr)
         return self._if(c, st.body, st.orelse, fr)
 
     def _refine(self, fr, cond):
@@ -660,11 +704,22 @@ class Evaluator:
         finally:
             self.explicit_contracts -= 1
         env1, facts1 = fr.env, fr.facts
-        out = r
+        # else clause: runs when the body completed normally; exceptions raised in it are not caught by these handlers
+        ELSE = ('elsemark',)
+        else_res = FALL
+        body_falls = r is FALL or _has_fall(r)
+        if st.orelse and body_falls:
+            else_res = self.block(st.orelse, fr)
+        env_ok, facts_ok = fr.env, fr.facts
+        out = ELSE if r is FALL else _map_leaves(r, lambda x: ELSE if (x is FALL or x == FALL) else x)
         any_handler_continues = False
+        merges = []
         for h in handlers:
             names = _handler_names(h)
             broad = names is None or bool(names & {'Exception', 'BaseException'})
+
+            def caught(x, names=names, broad=broad):
+                return T.tag(x) == 'raise' and (broad or x[1] in names or (x[1] == 'LibraryError' and bool(names & _LIB_EXC)))
             fr.env, fr.facts = dict(env0), facts0
             if len(st.body) != 1:
                 for s_ in st.body:
@@ -672,32 +727,34 @@ class Evaluator:
             if h.name:
                 fr.env[h.name] = T.opaque('exception object')
             hres = self.block(h.body, fr)
+            env_h = fr.env
             hcont = hres is FALL or _has_fall(hres) or not _all_raise(hres)
             any_handler_continues = any_handler_continues or hcont
-
-            def repl(x, hres=hres, names=names, broad=broad):
-                if T.tag(x) == 'raise' and (broad or x[1] in names or (x[1] == 'LibraryError' and names & _LIB_EXC)):
-                    return hres
-                return x
-            out = _map_leaves(out, repl) if out is not FALL else out
+            # the handler is entered exactly on the paths of the body that end in a caught raise
+            cond_h = T.FALSE if r is FALL else _map_leaves(out, lambda x: T.TRUE if (x != ELSE and caught(x)) else T.FALSE)
+            out = _map_leaves(out, lambda x, hres=hres: hres if (x != ELSE and caught(x)) else x)
             changed = [v for k_, v in env1.items() if env0.get(k_) is not v]
             if broad:
                 implicit = _may_raise_implicitly(st.body) and not self._only_contract_calls(st.body)
-            else:
+            elif names <= set(_RAISING_OPS):
                 implicit = any(_term_may_raise(x, names) for x in ([r] if r is not FALL else []) + changed)
+            else:
+                # an exception type whose sources are not catalogued (NotImplementedError, OSError, ...): any call,
+                # subscript, attribute access or arithmetic in the body may be what raises it
+                implicit = _may_raise_implicitly(st.body) and not self._only_contract_calls(st.body)
             if implicit:
-                out = T.phi(T.raw_op('BOOL', T.opaque('exception %s inside try body at line %d'
-                                                      % ('|'.join(sorted(names or ['any'])), st.lineno))),
-                            hres, out)
-        fr.env = env1
-        fr.facts = facts0 if any_handler_continues else facts1
-        if any_handler_continues and len(st.body) != 1:
-            for s_ in st.body:
-                self._havoc_targets(s_, fr, 'assigned in try body with continuing handler')
-        if out is FALL:
-            return self.block(st.orelse, fr) if st.orelse else FALL
-        if _has_fall(out) and st.orelse:
-            return _replace_fall(out, self.block(st.orelse, fr))
+                oc = T.raw_op('BOOL', T.opaque('exception %s inside try body at line %d' % ('|'.join(sorted(names or ['any'])), st.lineno)))
+                out = T.phi(oc, hres, out)
+                cond_h = T.or_(cond_h, oc) if T.type_of(cond_h) == 'bool' or T.is_const(cond_h) else oc
+            if hcont and cond_h != T.FALSE:
+                merges.append((cond_h, env_h))
+        # environment after the statement: what the normal completion (body, then else) left, or what the handler left
+        final_env = env_ok
+        for cond_h, env_h in merges:
+            final_env = _merge_env(cond_h, env_h, final_env)
+        fr.env = final_env
+        fr.facts = facts0 if any_handler_continues else facts_ok
+        out = _map_leaves(out, lambda x: else_res if x == ELSE else x) if out != ELSE else else_res
         return out
 
     def _only_contract_calls(self, body):
@@ -880,7 +937,7 @@ class Evaluator:
             if isinstance(s, ast.Continue):
                 return 'continue'
             if isinstance(s, ast.If) and _contains_break_continue(s):
-                c = T.truth(self.expr(s.test, fr))
+                c = self.truth(self.expr(s.test, fr), fr)
                 if c == T.TRUE:
                     r = self._loop_body(s.body, fr)
                 elif c == T.FALSE:
@@ -1049,10 +1106,25 @@ class Evaluator:
             # a name that is also imported (`random = random.SystemRandom()`): evaluate the RHS with
             # the import binding in scope
             v = None
-            nodes = mi.assigns[name]
+            other = mi.ecdsa_nodes if self.backend == 'secp' else mi.secp_nodes
+            nodes = [n_ for n_ in mi.assigns[name] if id(n_) not in other]
             if name in mi.imports:
                 fr.env[name] = self._resolved_value(self._import_target(mi, name), depth + 1)
+            done_try = set()
             for node in nodes:
+                tr = mi.try_of.get(id(node))
+                if tr is not None:
+                    # bound inside a module-level try (an environment probe): run the statement, alternatives are joined
+                    if id(tr) in done_try:
+                        continue
+                    done_try.add(id(tr))
+                    try:
+                        self.stmt(tr, fr)
+                        v = fr.env.get(name, T.opaque('module constant %s not bound by its try statement' % name))
+                    except NameErrorSignal:
+                        v = T.opaque('module constant %s unavailable in back end %s' % (name, self.backend))
+                    fr.env[name] = v
+                    continue
                 try:
                     v = self.expr(node, fr)
                 except NameErrorSignal:
@@ -1121,7 +1193,7 @@ class Evaluator:
         return self._lift_seq(flat, lambda xs: T.dct([(xs[i], xs[i + 1]) for i in range(0, len(xs), 2)]))
 
     def ex_IfExp(self, e, fr):
-        c = self.decide(T.truth(self.expr(e.test, fr)), fr)
+        c = self.decide(self.truth(self.expr(e.test, fr), fr), fr)
         if c == T.TRUE:
             return self.expr(e.body, fr)
         if c == T.FALSE:
@@ -1144,7 +1216,7 @@ class Evaluator:
             # below hold while the next operand is evaluated, not for the value as a whole)
             inner = fr.facts
             fr.facts = f0
-            c = self.decide(T.truth(acc), fr)
+            c = self.decide(self.truth(acc, fr), fr)
             fr.facts = inner
             if isinstance(e.op, ast.And):
                 if c == T.FALSE:
@@ -1176,7 +1248,7 @@ class Evaluator:
     def ex_UnaryOp(self, e, fr):
         v = self.expr(e.operand, fr)
         if isinstance(e.op, ast.Not):
-            return T.not_(T.truth(v))
+            return T.not_(self.truth(v, fr))
         if isinstance(e.op, ast.USub):
             if T.is_const(v) and isinstance(v[1], (int, float)):
                 return T.const(-v[1])
@@ -1400,7 +1472,7 @@ class Evaluator:
                 self.assign(g.target, item, fr)
                 keep = T.TRUE
                 for cnd in g.ifs:
-                    keep = T.and_(keep, self.decide(T.truth(self.expr(cnd, fr)), fr))
+                    keep = T.and_(keep, self.decide(self.truth(self.expr(cnd, fr), fr), fr))
                 if keep == T.FALSE:
                     continue
                 if keep != T.TRUE:
@@ -1434,7 +1506,7 @@ class Evaluator:
                     self.assign(g.target, item, fr)
                     keep = T.TRUE
                     for cnd in g.ifs:
-                        keep = T.and_(keep, self.decide(T.truth(self.expr(cnd, fr)), fr))
+                        keep = T.and_(keep, self.decide(self.truth(self.expr(cnd, fr), fr), fr))
                     if keep == T.FALSE:
                         continue
                     if keep != T.TRUE:
@@ -1475,7 +1547,7 @@ class Evaluator:
             self.assign(g.target, var, fr)
             keep = T.TRUE
             for cnd in g.ifs:
-                keep = T.and_(keep, T.truth(self.expr(cnd, fr)))
+                keep = T.and_(keep, self.truth(self.expr(cnd, fr), fr))
             if kind == 'dict':
                 body = T.tup([self.expr(e.key, fr), self.expr(e.value, fr)])
             else:
@@ -1855,6 +1927,53 @@ def bounds_of(t, facts, _depth=0):
     return lo, hi
 
 
+def absorb_ser_guards(t, _memo=None):
+    """`int.to_bytes(v, n)` raises OverflowError exactly when v is outside 0 .. 256^n - 1.  An explicit test of that
+    range which raises OverflowError in front of the conversion adds nothing: Phi(in-range(v) ? ..SER(v, n).. :
+    RAISE(OverflowError)) is the conversion itself.  (Only the message differs.)"""
+    memo = {} if _memo is None else _memo
+    if not isinstance(t, tuple) or t is FALL:
+        return t
+    if id(t) in memo:
+        return memo[id(t)][1]
+    k = T.tag(t)
+    r = t
+    if k == 'phi':
+        a, b = absorb_ser_guards(t[2], memo), absorb_ser_guards(t[3], memo)
+        c = t[1]
+        r = T.phi(c, a, b)
+        for keep, other, cond in ((a, b, c), (b, a, T.not_(c))):
+            if T.tag(other) == 'raise' and other[1] == 'OverflowError':
+                dec = Evaluator.__new__(Evaluator)
+                for x in T.walk(keep):
+                    if T.is_op(x, 'SER') and T.is_const(x[3]) and isinstance(x[3][1], int) and 0 < x[3][1] <= 64 and not T.is_const(x[2]):
+                        v, top = x[2], T.const(256 ** x[3][1])
+                        inside = Facts([T.not_(T.lt(v, T.const(0))), T.lt(v, top)])
+                        below = Facts([T.lt(v, T.const(0))])
+                        above = Facts([T.not_(T.lt(v, top))])
+                        f_ = Frame(None, {}, inside, None, None, 0)
+                        if dec.decide(cond, f_) != T.TRUE:
+                            continue
+                        f_.facts = below
+                        if dec.decide(cond, f_) != T.FALSE:
+                            continue
+                        f_.facts = above
+                        if dec.decide(cond, f_) != T.FALSE:
+                            continue
+                        r = keep
+                        break
+                if r is keep:
+                    break
+    elif k == 'op':
+        r = ('op', t[1]) + tuple(absorb_ser_guards(x, memo) if isinstance(x, tuple) else x for x in t[2:])
+        if r != t:
+            r = T.op(t[1], *r[2:])
+    elif k in ('list', 'tuple'):
+        r = (k, tuple(absorb_ser_guards(x, memo) for x in t[1]))
+    memo[id(t)] = (t, r)
+    return r
+
+
 def _is_dispatch(v):
     """Phi chain whose conditions all compare one symbolic key with constants (a table look-up by that key)."""
     if not isinstance(v, tuple) or T.tag(v) != 'phi':
@@ -2121,7 +2240,12 @@ def _fixed_items(t):
     if T.is_op(t, 'ZIP') and all(_fixed_items(x) is not None for x in t[2:]):
         return [T.tup(list(z)) for z in zip(*[_fixed_items(x) for x in t[2:]])]
     if T.is_op(t, 'ENUMERATE') and _fixed_items(t[2]) is not None:
-        return [T.tup([T.const(i), x]) for i, x in enumerate(_fixed_items(t[2]))]
+        start = 0
+        if len(t) > 3:
+            if not (T.is_const(t[3]) and isinstance(t[3][1], int)):
+                return None
+            start = t[3][1]
+        return [T.tup([T.const(i), x]) for i, x in enumerate(_fixed_items(t[2]), start)]
     return None
 
 
@@ -2136,6 +2260,10 @@ def _elem_meta(it):
         em = T.sym_meta(it, 'elem')
         if em:
             return dict(em)
+    if T.type_of(it) == 'str' or (T.is_op(it, 'SLICE') and T.type_of(it[2]) == 'str'):
+        return {'type': 'str', 'len': 1}          # iterating a string yields its characters
+    if T.type_of(it) == 'bytes' or (T.is_op(it, 'SLICE') and T.type_of(it[2]) == 'bytes'):
+        return {'type': 'int'}
     return {}
 
 
